@@ -318,15 +318,15 @@ Theorem stored_prefix_lengths (p : list byte) :
   Z.of_nat (length bits) = width /\ 0 <= len <= width /\ 0 <= mx <= width /\ 0 <= asn < 4294967296.
 Proof.
   intros Hb Hok Ht Hv. unfold prec_of_pdu.
-  pose proof (nthb_ok p 9 Hb) as B9. pose proof (nthb_ok p 10 Hb) as B10. unfold byte_ok in *.
+  pose proof (nthb_ok p 9 Hb) as B9. pose proof (nthb_ok p 10 Hb) as B10. unfold byte_ok in B9, B10.
   unfold prefix_lengths_valid in Hv. apply andb_true_iff in Hv. destruct Hv as [V1 V2]. apply Z.leb_le in V1, V2.
   destruct Ht as [Ht|Ht]; pose proof (pdu_ok_len p _ Hok Ht) as (H4 & H6 & _); rewrite Ht in *.
   - specialize (H4 eq_refl). change (c_IPV4_PREFIX =? c_IPV6_PREFIX) with false. change (c_IPV4_PREFIX =? c_IPV4_PREFIX) with true in *.
-    rewrite bits_of_bytes_length, firstn_length, skipn_length. unfold zlen in H4.
-    split; [lia|]. split; [lia|]. split; [lia|]. apply get32_bounds, Hb.
+    rewrite bits_of_bytes_length, firstn_length, skipn_length. unfold zlen in H4. cbv iota in V1, V2. unfold byte in *.
+    split; [lia|]. split; [lia|]. split; [lia|]. apply (get32_bounds p), Hb.
   - specialize (H6 eq_refl). change (c_IPV6_PREFIX =? c_IPV6_PREFIX) with true. change (c_IPV6_PREFIX =? c_IPV4_PREFIX) with false in *.
-    rewrite bits_of_bytes_length, firstn_length, skipn_length. unfold zlen in H6.
-    split; [lia|]. split; [lia|]. split; [lia|]. apply get32_bounds, Hb.
+    rewrite bits_of_bytes_length, firstn_length, skipn_length. unfold zlen in H6. cbv iota in V1, V2. unfold byte in *.
+    split; [lia|]. split; [lia|]. split; [lia|]. apply (get32_bounds p), Hb.
 Qed.
 
 (* ---------- fuel: the receive script is the only thing that ends the PDU loops ---------- *)
@@ -484,15 +484,20 @@ Proof.
   destruct (receive_pdu t w) as [[c|p] w'|x w']; try exact H. unfold M. lia.
 Qed.
 
+Lemma bind_cong2 {A B} (m1 m2 : world -> res A) (f g : A -> world -> res B) w :
+  m1 w = m2 w -> (forall a w', m2 w = Ok a w' -> f a w' = g a w') -> bind m1 f w = bind m2 g w.
+Proof. intros Hm Hf. unfold bind. rewrite Hm. destruct (m2 w) as [a w'|]; [now apply Hf|reflexivity]. Qed.
+
 (* more fuel than the script can pay for changes nothing: [store_loop] and [sync_first] stop because
    of what the script delivers, never because the fuel ran out *)
 Theorem store_loop_fuel f1 : forall f2 v4 v6 ks w,
   (ev_bytes (evs w) < 8 * f1)%nat -> (f1 <= f2)%nat -> store_loop f1 v4 v6 ks w = store_loop f2 v4 v6 ks w.
 Proof.
   induction f1 as [|f1 IH]; intros f2 v4 v6 ks w Hb Hf; [lia|].
-  destruct f2 as [|f2]; [lia|]. cbn [store_loop]. unfold bind at 1 3.
-  pose proof (receive_pdu_consumes c_RTR_RECV_TIMEOUT w) as Hc.
-  destruct (receive_pdu c_RTR_RECV_TIMEOUT w) as [[c|p] w1|x w1]; try reflexivity.
+  destruct f2 as [|f2]; [lia|]. cbn [store_loop].
+  apply bind_cong2; [reflexivity|]. intros r w1 Hr.
+  pose proof (receive_pdu_consumes c_RTR_RECV_TIMEOUT w) as Hc. rewrite Hr in Hc.
+  destruct r as [c|p]; [reflexivity|].
   assert (Hb1 : (ev_bytes (evs w1) < 8 * f1)%nat) by lia.
   repeat match goal with |- (if ?c then _ else _) _ = (if ?c then _ else _) _ => destruct c; try reflexivity end;
     apply IH; auto; lia.
@@ -502,9 +507,10 @@ Theorem sync_first_fuel f1 : forall f2 w,
   (ev_bytes (evs w) < 8 * f1)%nat -> (f1 <= f2)%nat -> sync_first f1 w = sync_first f2 w.
 Proof.
   induction f1 as [|f1 IH]; intros f2 w Hb Hf; [lia|].
-  destruct f2 as [|f2]; [lia|]. cbn [sync_first]. unfold bind at 1 3.
-  pose proof (receive_pdu_consumes c_RTR_RECV_TIMEOUT w) as Hc.
-  destruct (receive_pdu c_RTR_RECV_TIMEOUT w) as [[c|p] w1|x w1]; try reflexivity.
+  destruct f2 as [|f2]; [lia|]. cbn [sync_first].
+  apply bind_cong2; [reflexivity|]. intros r w1 Hr.
+  pose proof (receive_pdu_consumes c_RTR_RECV_TIMEOUT w) as Hc. rewrite Hr in Hc.
+  destruct r as [c|p]; [reflexivity|].
   destruct (nthb p 1 =? c_SERIAL_NOTIFY); [|reflexivity]. apply IH; lia.
 Qed.
 
@@ -517,17 +523,17 @@ Qed.
 Theorem rtr_sync_fuel f1 f2 w :
   (ev_bytes (evs w) < 8 * f1)%nat -> (f1 <= f2)%nat -> rtr_sync f1 w = rtr_sync f2 w.
 Proof.
-  intros Hb Hf. unfold rtr_sync. unfold bind at 1 6.
-  rewrite (sync_first_fuel f1 f2 w Hb Hf).
-  pose proof (sync_first_M f2 w) as H1. unfold rel in H1.
-  destruct (sync_first f2 w) as [[p|] w1|x w1]; try reflexivity.
+  intros Hb Hf. unfold rtr_sync.
+  apply bind_cong2; [apply sync_first_fuel; auto|]. intros fp w1 H1.
+  pose proof (sync_first_M f2 w) as M1. unfold rel in M1. rewrite H1 in M1.
+  destruct fp as [p|]; [|reflexivity].
   repeat match goal with |- (if ?c then _ else _) _ = (if ?c then _ else _) _ => destruct c; try reflexivity end.
-  unfold bind at 1 6. unfold get_sk. unfold bind at 1 5.
-  match goal with |- match ?m w1 with _ => _ end = _ => assert (Hk : relM m w1) end.
-  { repeat mstep; try mlem; try (mprim; fail). }
-  unfold rel in Hk.
-  match goal with |- match ?m w1 with _ => _ end = _ => destruct (m w1) as [ok w2|x w2]; [|reflexivity] end.
+  apply bind_cong2; [reflexivity|]. intros s w1' Hs. unfold get_sk in Hs. injection Hs as <- <-.
+  apply bind_cong2; [reflexivity|]. intros ok w2 H2.
+  match type of H2 with ?m w1 = _ => assert (Hk : relM m w1) by (repeat mstep; try mlem; try (mprim; fail)) end.
+  unfold rel in Hk. rewrite H2 in Hk.
   destruct (negb ok); [reflexivity|].
-  unfold receive_and_store. unfold bind at 1 2. unfold bind at 5 6.
-  rewrite (store_loop_fuel f1 f2 [] [] [] w2) by (unfold M in *; lia). reflexivity.
+  apply bind_cong2; [|reflexivity].
+  unfold receive_and_store. apply bind_cong2; [|reflexivity].
+  apply store_loop_fuel; [unfold M in *; lia|exact Hf].
 Qed.
